@@ -121,6 +121,18 @@ compile_error!("the libc seams are written for x86_64 linux");
 const SYS_CLOCK_GETTIME: c_long = 228;
 const SYS_GETRANDOM: c_long = 318;
 
+/// Sub-second part served with a wall-clock reading (nanoseconds).
+fn sim_nanos(secs: u64, reads: u64) -> c_long {
+    let h = crate::rng::mix(&[0x4E5, secs, reads]);
+    (match h % 5 {
+        0 => 0,
+        1 => 999_999_999,
+        2 => 500_000_000 + (h >> 8) % 1000,
+        3 => 499_999_000 + (h >> 8) % 1000,
+        _ => (h >> 8) % 1_000_000_000,
+    }) as c_long
+}
+
 #[no_mangle]
 pub unsafe extern "C" fn clock_gettime(clk: c_int, ts: *mut Timespec) -> c_int {
     let env = active();
@@ -130,6 +142,7 @@ pub unsafe extern "C" fn clock_gettime(clk: c_int, ts: *mut Timespec) -> c_int {
         let mono = matches!(clk, 1 | 4 | 6 | 7);
         if wall || mono {
             let mut st = (*env).lock().unwrap_or_else(|e| e.into_inner());
+            let reads = st.wall_reads_total + st.mono_reads_total;
             let secs = if wall {
                 if let Some(delta) = st.script.pop_front() {
                     if delta > 0 {
@@ -148,7 +161,9 @@ pub unsafe extern "C" fn clock_gettime(clk: c_int, ts: *mut Timespec) -> c_int {
                 st.mono
             };
             (*ts).tv_sec = secs as i64;
-            (*ts).tv_nsec = 0;
+            // the sub-second part is no function of anything: a result that rounds to the nearest
+            // second, or carries milliseconds, must show. Often close to the edges of the second.
+            (*ts).tv_nsec = if wall { sim_nanos(secs, reads) } else { 0 };
             return 0;
         }
     }
@@ -725,7 +740,7 @@ pub unsafe extern "C" fn gettimeofday(tv: *mut i64, _tz: *mut c_void) -> c_int {
     match sim_wall_read() {
         Some(v) => {
             *tv = v as i64;
-            *tv.add(1) = 0;
+            *tv.add(1) = (sim_nanos(v, v ^ 0x77) / 1000) as i64;
         }
         None => {
             let mut ts = Timespec { tv_sec: 0, tv_nsec: 0 };
@@ -845,6 +860,54 @@ pub unsafe extern "C" fn clock() -> c_long {
     // CLOCK_PROCESS_CPUTIME_ID
     syscall(SYS_CLOCK_GETTIME, 2 as c_long, &mut ts as *mut Timespec);
     (ts.tv_sec * 1_000_000 + ts.tv_nsec as i64 / 1000) as c_long
+}
+
+/// `getauxval(AT_RANDOM)`: sixteen bytes the kernel draws per process (a cheap hasher seed that
+/// needs no system call); `sched_getcpu`: the CPU the thread happens to run on. For simulated
+/// caller threads both are functions of the environment epoch and the thread's hash key.
+#[no_mangle]
+pub unsafe extern "C" fn getauxval(kind: std::os::raw::c_ulong) -> std::os::raw::c_ulong {
+    extern "C" {
+        fn dlsym(handle: *mut c_void, symbol: *const std::os::raw::c_char) -> *mut c_void;
+    }
+    thread_local! {
+        static AT_RANDOM_BYTES: Cell<[u64; 2]> = const { Cell::new([0, 0]) };
+    }
+    if kind == 25 {
+        if let Some(v) = sim_identity(0xAE, "getauxval AT_RANDOM", u64::MAX) {
+            let key = HASH_KEY.with(|k| k.get());
+            return AT_RANDOM_BYTES.with(|b| {
+                b.set([crate::rng::mix(&[v, key, 1]), crate::rng::mix(&[v, key, 2])]);
+                b.as_ptr() as std::os::raw::c_ulong
+            });
+        }
+    }
+    static REAL: std::sync::atomic::AtomicUsize = std::sync::atomic::AtomicUsize::new(0);
+    let mut f = REAL.load(std::sync::atomic::Ordering::Relaxed);
+    if f == 0 {
+        f = dlsym(-1isize as *mut c_void, b"getauxval\0".as_ptr() as *const std::os::raw::c_char) as usize;
+        REAL.store(f, std::sync::atomic::Ordering::Relaxed);
+    }
+    if f == 0 {
+        *__errno_location() = ENOENT;
+        return 0;
+    }
+    let real: unsafe extern "C" fn(std::os::raw::c_ulong) -> std::os::raw::c_ulong = std::mem::transmute(f);
+    real(kind)
+}
+
+#[no_mangle]
+pub unsafe extern "C" fn sched_getcpu() -> c_int {
+    if let Some(v) = sim_identity(0xAF, "sched_getcpu", 16) {
+        return v as c_int;
+    }
+    let mut cpu: c_uint = 0;
+    let r = syscall(309, &mut cpu as *mut c_uint, std::ptr::null_mut::<c_uint>(), std::ptr::null_mut::<c_void>());
+    if r < 0 {
+        *__errno_location() = (-r) as c_int;
+        return -1;
+    }
+    cpu as c_int
 }
 
 /// Self-test used by `fpsim selfcheck`: both seams must be live in this binary.
